@@ -62,3 +62,13 @@ def eq_tuple(xs, ys):
 def fl(x):
     """float of a model value or python number"""
     return float(x)
+
+
+def EQ_RATIONAL(a, b):
+    """a == b for rational expressions: cross-multiplied to a polynomial identity (numerator of a - b, sum-of-monomials normal form),
+    so that no division reaches the solver; the denominators are non-zero by the harness' assumptions"""
+    from symx import measure as M
+
+    num, den = M.frac(V.term_of(a) - V.term_of(b))
+    num = z3.simplify(num, som=True)
+    return SymBool(num == 0)
